@@ -230,7 +230,7 @@ class Folder:
         "tuple": tuple, "list": list, "set": set, "dict": dict, "sum": sum, "zip": zip, "len": len,
         "range": range, "max": max, "min": min, "sorted": sorted, "frozenset": frozenset, "str": str,
         "int": int, "bool": bool, "float": float, "any": any, "all": all, "enumerate": enumerate,
-        "None": None, "True": True, "False": False, "Ellipsis": Ellipsis, "isinstance": None,
+        "None": None, "True": True, "False": False, "Ellipsis": Ellipsis, "isinstance": None, "map": map, "filter": filter, "reversed": reversed,
     }  # fmt: skip
 
     def __init__(self, module: Module, env: dict):
@@ -462,6 +462,8 @@ class Folder:
             return list(itertools.product(*args))
         if f is _itertools_chain:
             return list(itertools.chain(*args))
+        if f is _bounded_count:
+            return _bounded_count(*args)
         if f is _type_fn:
             return ("type-of", args[0] if args else None)
         if callable(f) and getattr(f, "__self__", None) is not None and isinstance(f.__self__, (dict, list, set)):
@@ -473,7 +475,20 @@ class Folder:
         if isinstance(target, ast.Name):
             env[target.id] = value
         elif isinstance(target, (ast.Tuple, ast.List)):
-            vals = list(value)
+            vals = list(self.iterate(value)) if hasattr(self, "iterate") else list(value)
+            stars = [i for i, t in enumerate(target.elts) if isinstance(t, ast.Starred)]
+            if len(stars) == 1:
+                # a, *rest, z = values
+                i = stars[0]
+                after = len(target.elts) - i - 1
+                if len(vals) < len(target.elts) - 1:
+                    self.err(target, "unpack length mismatch")
+                for t, v in zip(target.elts[:i], vals[:i]):
+                    self.bind(t, v, env)
+                self.bind(target.elts[i].value, list(vals[i : len(vals) - after]), env)
+                for t, v in zip(target.elts[i + 1 :], vals[len(vals) - after :] if after else []):
+                    self.bind(t, v, env)
+                return
             if len(vals) != len(target.elts):
                 self.err(target, "unpack length mismatch")
             for t, v in zip(target.elts, vals):
@@ -538,6 +553,11 @@ def _itertools_product():  # sentinels
     pass
 
 
+def _bounded_count(start=0, step=1):
+    """itertools.count, cut off after 256 values (generators are collected eagerly; the searches that use it stop early)"""
+    return list(range(start, start + 256 * step, step))
+
+
 def _itertools_chain():
     pass
 
@@ -558,7 +578,19 @@ class TypesModel:
         env["Dtype"] = TypeCtor("Dtype")
         env["type"] = _type_fn
         self.env = env
-        f = Folder(m, env)
+        # module-level statements are folded; a helper *function* of the module that such a statement calls (e.g. the closure of
+        # the conversion table factored into a function) is interpreted on demand
+        from .interp import Func, Interp
+
+        f = Interp(m, env)
+        defs = {st.name: st for st in m.tree.body if isinstance(st, ast.FunctionDef)}
+
+        def resolve(name):
+            if name in defs:
+                return Func(defs[name], env, f)
+            raise KeyError(name)
+
+        f.global_resolver = resolve
         wanted = ("S", "INT_SUBTYPES", "FLOAT_SUBTYPES", "SIMPLE_TYPES", "IMPLICIT_CONVS", "NUMERIC", "COMPARABLE")
         self.stmts = []
         for st in m.tree.body:
@@ -639,7 +671,7 @@ class Catalogue:
             elif isinstance(st, ast.Import):
                 for a in st.names:
                     if a.name == "itertools":
-                        env[a.asname or "itertools"] = _ModuleNS({"product": _itertools_product, "chain": _itertools_chain})
+                        env[a.asname or "itertools"] = _ModuleNS({"product": _itertools_product, "chain": _itertools_chain, "count": _bounded_count})
         f = Folder(m, env)
         self.star_modules.append(m)
         for st in m.tree.body:
